@@ -3,7 +3,7 @@ each fix-up function is shown to re-establish the red-black / AVL invariant from
 heap the invariant admits)."""
 from plint import symx
 from plint.symx import C
-from plint.ir import line, strip_casts, cv, show
+from plint.ir import line, strip_casts, cv, show, walk
 from plint.units import AnalysisBroken
 from plint import shape, treeshape
 from rules.treecommon import TreeRun, variant_roles, field_writers, fixup_functions, tree_view
@@ -254,7 +254,37 @@ def run(prog, rep):
         rep.ob("C13.4", f_, "factor-stores", not badf, "outside the retracing helpers %s sets a balance factor only to 0 (%d store(s))" % (f_.name, len(sts)) if not badf else
                "line %d: %s stores %s into a balance factor outside the retracing helpers: a node that is new, or a leaf moved into a removed node's place, has factor 0; "
                "a stale factor makes a later retrace stop early and the tree loses its height bound" % (line(badf[0]), f_.name, show(badf[0].get("r")) if badf[0]["k"] == "asg" else "an increment"), badf[0] if badf else f_.loc[0])
-    rep.floor("C13.4", 5)
+    # ... and only on a node made in this call: on the path of every such store an allocation succeeded before it.  (The replace path
+    # of insert keeps the node with its children: resetting its factor there leaves a leaning node that claims to be balanced, and a
+    # later removal picks its rotation from the stale factor - a double rotation through a child that is not there.)
+    from plint import guards as _g
+    from plint.flow import Flow as _Flow
+    for f_ in sorted(au.functions.values(), key=lambda f: f.loc[0]):
+        if f_.name in clo:
+            continue
+        fv_ = tree_view(f_)
+        stale = []
+
+        def fs(st, b, i, stmt, stale=stale):
+            facts, fresh = st
+            for n in walk(stmt):
+                if n["k"] == "call" and n.get("callee") in ("p_malloc0", "p_malloc"):
+                    fresh = True
+            for n in walk(stmt):
+                if n["k"] == "asg" and strip_casts(n["l"]) is not None and strip_casts(n["l"])["k"] == "member" and strip_casts(n["l"])["field"] == "balance_factor" and not fresh:
+                    stale.append(line(n))
+            return [(_g.transfer(facts, stmt), fresh)]
+
+        def fe(st, b, to, on):
+            f2 = _g.edge_assume(st[0], b, on)
+            return None if f2 is None else (f2, st[1])
+        if not any(n["k"] == "asg" and strip_casts(n["l"]) is not None and strip_casts(n["l"])["k"] == "member" and strip_casts(n["l"])["field"] == "balance_factor" for (b, i, n) in fv_.nodes(elsewhere=True)):
+            continue
+        _Flow(fv_, [(_g.EMPTY, False)], fs, fe, max_states=20000).run()
+        rep.ob("C13.4", f_, "factor-stores:fresh", not stale, "outside the retracing helpers %s sets a balance factor only on a path that allocated the node in this call" % f_.name if not stale else
+               "line %d: %s stores into the balance factor of a node that was already part of the tree (no allocation on this path - the replace path): the node keeps its "
+               "children but forgets which way it leans, and a later removal chooses its rotation from the wrong factor" % (stale[0], f_.name), stale[0] if stale else f_.loc[0])
+    rep.floor("C13.4", 6)
     # ---- C13.5: the balancing decisions read live nodes ----------------------------------------------------
     rep.rule("C13.5", "live node: in ptree-rb.c / ptree-avl.c no path reads a node (its colour or factor for a repaint or retrace decision, its links) after the node was "
                       "handed to p_free: with an allocator that reuses or scrubs freed blocks the decision is made on garbage and the tree loses its balance invariant")
@@ -294,6 +324,8 @@ def link_base(r):
 RENAME_LOCALS = ['src/ptree-rb.c', 'src/ptree-avl.c']
 
 SELFTEST = [
+    dict(id="avl-replace-resets-factor", file="src/ptree-avl.c", expect="C13.4",
+         old="\t\t(*cur_node)->key   = key;\n\t\t(*cur_node)->value = value;\n\n\t\treturn FALSE;", new="\t\t(*cur_node)->key   = key;\n\t\t(*cur_node)->value = value;\n\t\t((PTreeAVLNode *) *cur_node)->balance_factor = 0;\n\n\t\treturn FALSE;"),
     # ---- C13.4 entry conditions ----
     dict(id="rb-new-node-black", file="src/ptree-rb.c", expect="C13.4",
          old="\t((PTreeRBNode *) *cur_node)->color  = P_TREE_RB_COLOR_RED;", new="\t((PTreeRBNode *) *cur_node)->color  = P_TREE_RB_COLOR_BLACK;"),
